@@ -15,6 +15,8 @@ CHECKS = {
          "PGModel encodes the docstrings; rules the docs leave open are pinned to the behaviour both backends share and listed in the evidence.", "deterministic simulation: three-way lock-step refinement against an executable reference model"),
  "C06": ("exploration", "Neighbour/path queries are issued as read operations inside seeded store-world histories (several graphs in the store, mixed relations) and compared with an oracle computed from the model's edge list without networkx. Weakest kind of simulation use: the property is a function of the store state; the simulation contributes state diversity only.", "4/C06",
          "'loop-free' is the library's own notion (induced sub-graph of the path acyclic).", "deterministic simulation (state diversity only) + independent query oracle"),
+ "C20": ("exploration", "Part A: an observing lock replaces the lock of both stores in every store-world run (acquire/release balance, no release while unlocked, not held on exit, after every operation incl. naturally failing ones), plus enumeration of every source-line crash point of each store operation with an injected exception. Part B: 2-3 real threads x 2-4 store operations, parked and released one at a time by a seeded scheduler (random and PCT) with pre-emption at every source line of the store modules and every lock operation; after join every graph must hold exactly the nodes (with their properties) and edges its owner added, counters beyond all ids, no deadlock. Seeded search, not systematic enumeration up to a pre-emption bound.", "4/C20",
+         "Pre-emption granularity is a source line of the three store modules; injected exceptions are MemoryError at line events (not at lock calls / try: / finally: / return lines).", "deterministic simulation: baton-passing real threads under a seeded line-level scheduler + crash-point enumeration with exception injection"),
 }
 checks = []
 for pid,(cat,text,ref,note,tech) in sorted(CHECKS.items()):
